@@ -44,7 +44,7 @@ def guards_of(node: ast.AST) -> list[tuple[ast.expr, bool]]:
     out: list[tuple[ast.expr, bool]] = []
     child = node
     p = parent(node)
-    while p is not None and not isinstance(p, FUNC_KINDS + (ast.Lambda, ast.ClassDef, ast.Module)):
+    while p is not None and not isinstance(p, (ast.Lambda, ast.ClassDef, ast.Module)):
         if isinstance(p, ast.If):
             if child in p.body:
                 out.append((p.test, True))
@@ -86,8 +86,8 @@ def guards_of(node: ast.AST) -> list[tuple[ast.expr, bool]]:
                         elif prev.orelse and always_exits(prev.orelse) and not always_exits(prev.body):
                             out.append((prev.test, True))
                     killed |= _stores(prev)
-        if isinstance(p, ast.ExceptHandler):
-            pass
+        if isinstance(p, FUNC_KINDS):
+            break
         child = p
         p = parent(p)
     return out
